@@ -185,6 +185,12 @@ func (c *NoiseGrpcConn) ClientHandshake(_ context.Context, _ string,
 	}
 	c.ProxyConn = transportConn
 
+	// Drop whatever part of a message the previous connection left unread:
+	// it must not be handed out as the first bytes of the new connection.
+	c.nextMsgMtx.Lock()
+	c.nextMsg = nil
+	c.nextMsgMtx.Unlock()
+
 	// First, initialize a new noise machine with our static long term, and
 	// passphraseEntropy.
 	var err error
@@ -245,6 +251,12 @@ func (c *NoiseGrpcConn) ServerHandshake(conn net.Conn) (net.Conn,
 		return nil, nil, fmt.Errorf("invalid connection type")
 	}
 	c.ProxyConn = transportConn
+
+	// Drop whatever part of a message the previous connection left unread:
+	// it must not be handed out as the first bytes of the new connection.
+	c.nextMsgMtx.Lock()
+	c.nextMsg = nil
+	c.nextMsgMtx.Unlock()
 
 	// First, we'll initialize a new state machine with our static key,
 	// remote static key, passphrase, and also the authentication data.
